@@ -215,6 +215,15 @@ def run(tier, rep):
             pos = line_col(tb, len(tb)) if e["cursor"] == "end" else ((0, 0) if e["cursor"] == "start" else line_col(tb, len(tb) // 2))
             ereqs.append({"id": len(ereqs), "text": tb.decode(), "dir": memdir, "positions": [list(pos)], "limit_s": 120})
             emeta.append((name, e))
+    # receivers of every kind of type, including ones the program cannot really have: completion must answer for all of them
+    for rty in ("T[int32]", "T", "dyn Tr", "(int32, bool)", "[int32; 2]", "Vec[int32]", "Ref[int32]", "Ref[Pt]", "() -> int32", "unit", "string", "float64",
+                "Unknown", "Unknown[int32]", "Pt[int32]", "Bx", "Bx[Bx[T]]", "Vec[T[int32]]"):
+        for tail, col_off in ((".", 1), (".x", 2), ("::", 2), ("", 0)):
+            t = ("struct Pt { xs: int32 }\nstruct Bx[T] { v: T }\ntrait Tr { fn m(Self) -> int32; }\nimpl[T] Bx[T] { fn get(self: Bx[T]) -> T { self.v } }\n"
+                 f"fn f[T](x: {rty}) -> int32 {{\n    let y = x{tail}\n    0\n}}\nfn main() -> unit {{ () }}\n")
+            line = 5
+            ereqs.append({"id": len(ereqs), "text": t, "dir": memdir, "positions": [[line, len("    let y = x") + col_off]], "limit_s": 120})
+            emeta.append(("receiver-types", {"unit": "receiver", "cut": rty, "pending": tail or "nothing", "cursor": "end"}))
     eres = gv_robust("query", ereqs)
     for q, (name, e), r in zip(ereqs, emeta, eres):
         rid0 = f"edit:{name}:{e['unit']}:{e['cut']}:{e['pending']}:{e['cursor']}"
